@@ -3,7 +3,16 @@
 fs.wildcard.match/imatch and fs.glob.match/imatch (from /repo) are compared with the
 recursive reference matchers of Glob/ShellSpec.v (extracted); fs.glob(pattern) on real
 trees is compared with the filter of a complete, unpruned walk by the reference matcher;
-count()/remove() must act on exactly that set."""
+count()/remove() must act on exactly that set.
+
+(v) every entry point that compiles or looks up a pattern (fs.glob.match/imatch/match_any/imatch_any/get_matcher,
+FS.match_glob, fs.glob(...) iterate/count/count_lines/remove, Walker filter_glob/exclude_glob; fs.wildcard.match/imatch/
+match_any/imatch_any/get_matcher, FS.match, FS.filterdir, Walker filter/exclude/filter_dirs/exclude_dirs,
+fs.glob(exclude_dirs=)) x both case modes is run in HISTORIES of one process - all ordered pairs on the same pattern
+string from empty pattern caches, inside long never-cleared histories, and around a fill of the caches beyond capacity -
+and every call is compared with the reference for its own mode. (vi) the list-level entry points and filesystems that
+declare case_insensitive (TarFS, a MemoryFS subclass, SubFS / read_only over it) are compared with wild_any / the walker
+model exhaustively over lists of 0..2 patterns and mixed-case names (ASCII)."""
 from __future__ import print_function
 
 import itertools
@@ -11,7 +20,15 @@ import json
 import random
 
 import common
-from common import tok
+from common import tok, r_str, r_bool, r_pair
+
+# TODO(PENDING_FINDINGS): signatures of misbehaviours of the UNCHANGED library that the coverage below exposes and that
+# are not yet in known_findings.json; they are routed through report.known_match(signature) (KNOWN-FINDING once the
+# signature is registered) and, while listed here, do not fail the check.
+PENDING_FINDINGS = [
+    "Globber.count_lines raises ValueError('readline of closed file') on a TarFS "
+    "(iterates fs.open(path) without keeping the file object)",
+]
 
 WTOK = ["a", "B", ".", "*", "?", "[ab]", "[!a]", "[a-c]", "-", "]", "["]
 WNAMES = ["", "a", "b", "B", "ab", "a.b", "abc", "a/b", "a\nb", "[", "-", "A", "c", "]", "ba"]
@@ -80,6 +97,923 @@ def classify(pattern, path, is_dir, impl, spec, level):
     if "**" in pattern and impl is True and spec == "SF":
         return "glob: '**' translated to '.*' crosses component boundaries"
     return None
+
+
+# ================================================================================================
+# (v)  histories of the process-wide pattern caches (fs.glob._PATTERN_CACHE, fs.wildcard._PATTERN_CACHE)
+# (vi) list-level entry points and filesystems that declare case_insensitive
+#
+# "case is respected or ignored as requested" must hold for every call in every history of the process: every entry
+# point that compiles or looks up a pattern is run in mode m1 and then another (or the same) entry point in mode m2
+# on the SAME pattern string - all ordered pairs, from a cold cache, inside one long warm history, and around a
+# fill of the caches beyond their capacity - and EVERY answer of the history is compared with the reference matcher
+# (Glob/ShellSpec.v via the extracted model: `glob glob`, `glob wild`, and the walker model of Walk/WalkOpts.v, whose
+# name filters are wild_any) for the mode of that call.
+# ================================================================================================
+CH_TREE = [("notes.txt", None), ("README.TXT", None), ("Setup.Py", None), ("ab", None), ("AB", None),
+           ("Docs", [("a.txt", None), ("B.TXT", None), ("Sub", [("d.TXT", None)])]),
+           ("docs2", [("c.Txt", None)])]
+# every pattern is a legal wildcard AND a legal glob pattern; literal parts differ in case from names of CH_TREE
+CH_POOL = ["*.txt", "*.TXT", "ab", "A?", "[nr]*.txt", "README.*", "d*", "docs2", "sub", "*/*.txt", "**/*.txt",
+           "Docs/*.TXT", "docs/*", "d*/", "*/sub/", "docs/sub/*.txt"]
+CH_NAMES_EXTRA = ["readme.txt", "NOTES.TXT", "Ab", "docs", "DOCS2", "sub", "x.py", "a.TxT"]
+CH_CS_KINDS = ["mem", "sub", "ro", "os"]
+CH_CI_KINDS = ["cimem", "cisub", "ciro", "tar"]
+CH_PROCS = 8
+
+
+def ch_items(ents, base=""):
+    out = []
+    for n, sub in ents:
+        p = base + "/" + n
+        out.append((p, sub is not None))
+        if sub is not None:
+            out += ch_items(sub, p)
+    return out
+
+
+def ch_lines(ents):
+    """file i of the tree holds 2**i lines: a sum of line counts identifies the set of files counted"""
+    files = [p for p, d in ch_items(ents) if not d]
+    return dict((p, 2 ** i) for i, p in enumerate(files))
+
+
+def ch_build(fs, ents, lines, base="/", rel=""):
+    for n, sub in ents:
+        p = base.rstrip("/") + "/" + n
+        r = rel + "/" + n
+        if sub is None:
+            fs.writebytes(p, b"l\n" * lines[r])
+        else:
+            fs.makedir(p)
+            ch_build(fs, sub, lines, p, r)
+
+
+_CI_CLASS = []
+
+
+def ci_memory_class():
+    """A MemoryFS whose getmeta() declares case_insensitive (what FS.match / FS.match_glob consult)."""
+    if not _CI_CLASS:
+        from fs.memoryfs import MemoryFS
+
+        class CaseInsensitiveMemoryFS(MemoryFS):
+            def getmeta(self, namespace="standard"):
+                meta = dict(super(CaseInsensitiveMemoryFS, self).getmeta(namespace))
+                if namespace == "standard":
+                    meta["case_insensitive"] = True
+                return meta
+        _CI_CLASS.append(CaseInsensitiveMemoryFS)
+    return _CI_CLASS[0]
+
+
+class ChEnv(object):
+    """The filesystems holding one tree: 4 case-sensitive and 4 case-insensitive (by getmeta) flavours."""
+
+    def __init__(self, ents):
+        import fs.glob as G
+        import fs.wildcard as W
+        self.G, self.W = G, W
+        self.ents = ents
+        self.items = ch_items(ents)
+        self.lines = ch_lines(ents)
+        self.names = sorted(set(p.rsplit("/", 1)[1] for p, _d in self.items) | set(CH_NAMES_EXTRA))
+        self._fs = {}
+        self._cleanup = []
+
+    def get(self, kind):
+        if kind in self._fs:
+            return self._fs[kind]
+        import shutil
+        import tempfile
+        from fs.memoryfs import MemoryFS
+        from fs.wrap import read_only
+        base = ci_memory_class() if kind.startswith("ci") else MemoryFS
+        if kind in ("mem", "cimem"):
+            f = base()
+            ch_build(f, self.ents, self.lines)
+            self._cleanup.append(f.close)
+        elif kind in ("sub", "cisub"):
+            m = base()
+            m.makedirs("x/y")
+            ch_build(m, self.ents, self.lines, "/x/y")
+            f = m.opendir("x/y")
+            self._cleanup.append(m.close)
+        elif kind in ("ro", "ciro"):
+            m = base()
+            ch_build(m, self.ents, self.lines)
+            f = read_only(m)
+            self._cleanup.append(m.close)
+        elif kind == "os":
+            from fs.osfs import OSFS
+            d = tempfile.mkdtemp(prefix="pyfs2verif_c14_")
+            f = OSFS(d)
+            ch_build(f, self.ents, self.lines)
+            self._cleanup.append(lambda: (f.close(), shutil.rmtree(d, ignore_errors=True)))
+        elif kind == "tar":
+            from fs.tarfs import TarFS
+            d = tempfile.mkdtemp(prefix="pyfs2verif_c14_")
+            with TarFS(d + "/t.tar", write=True) as t:
+                ch_build(t, self.ents, self.lines)
+            f = TarFS(d + "/t.tar")
+            self._cleanup.append(lambda: (f.close(), shutil.rmtree(d, ignore_errors=True)))
+        else:
+            raise ValueError(kind)
+        declared = bool(f.getmeta().get("case_insensitive", False))
+        if declared != (kind in CH_CI_KINDS):
+            # a host whose OS filesystem folds case, or an archive class that stops declaring it: use the plain one
+            f = self.get("cimem" if kind in CH_CI_KINDS else "mem")
+        self._fs[kind] = f
+        return f
+
+    def flavour(self, cs, k):
+        kinds = CH_CS_KINDS if cs else CH_CI_KINDS
+        return self.get(kinds[k % len(kinds)])
+
+    def any_fs(self, k):
+        kinds = CH_CS_KINDS + CH_CI_KINDS
+        return self.get(kinds[k % len(kinds)])
+
+    def close(self):
+        for c in self._cleanup:
+            try:
+                c()
+            except Exception:
+                pass
+        self._fs, self._cleanup = {}, []
+
+
+def _in_dom(P, is_dir):
+    # files against every pattern; directories only against slash patterns (for the others the recorded finding
+    # "Globber matches directories only with a trailing slash appended" decides, see classify())
+    return (not is_dir) or P.endswith("/")
+
+
+def _g_expect(ref, P, cs):
+    return frozenset(x for x in ref["g"][(P, cs)] if _in_dom(P, x[1]))
+
+
+def _w_expect(ref, P, cs):
+    return ref["w"][(P, cs)]
+
+
+def _g_fun(make):
+    def ob(env, P, cs, k):
+        f = make(env, P, cs, k)
+        return frozenset((p, d) for p, d in env.items if _in_dom(P, d) and f(p + ("/" if d else "")))
+    return ob
+
+
+def _w_fun(make):
+    def ob(env, P, cs, k):
+        f = make(env, P, cs, k)
+        return frozenset(n for n in env.names if f(n))
+    return ob
+
+
+def _globber(env, P, cs, k):
+    return env.any_fs(k).glob(P, case_sensitive=cs)
+
+
+def _ob_glob_iter(env, P, cs, k):
+    return frozenset(x for x in ((g.path.rstrip("/") or "/", bool(g.info.is_dir)) for g in _globber(env, P, cs, k))
+                     if _in_dom(P, x[1]))
+
+
+def _ob_glob_count(env, P, cs, k):
+    c = _globber(env, P, cs, k).count()
+    return (c.files, c.directories if P.endswith("/") else None)
+
+
+def _ex_glob_count(ref, P, cs):
+    w = _g_expect(ref, P, cs)
+    return (len([1 for _p, d in w if not d]), len([1 for _p, d in w if d]) if P.endswith("/") else None)
+
+
+def _ob_glob_lines(env, P, cs, k):
+    c = _globber(env, P, cs, k).count_lines()
+    return (c.lines, c.non_blank)
+
+
+def _ex_glob_lines(ref, P, cs):
+    n = sum(ref["lines"][p] for p, d in _g_expect(ref, P, cs) if not d)
+    return (n, n)
+
+
+def _ob_glob_remove(env, P, cs, k):
+    from fs.memoryfs import MemoryFS
+    m = MemoryFS()
+    try:
+        ch_build(m, env.ents, env.lines)
+        m.glob(P, case_sensitive=cs).remove()
+        return frozenset((p, bool(i.is_dir)) for p, i in m.walk.info())
+    finally:
+        m.close()
+
+
+def _cmp_glob_remove(after, ref, P, cs):
+    """remove() acts on exactly the matching set: which resources are gone, judged where their parent survived
+    (a directory removed by the recorded trailing-slash finding takes its files with it: not judged again here)"""
+    want = _g_expect(ref, P, cs)
+    alive = set(after) | set([("/", True)])
+
+    def parent_alive(p):
+        return ((p.rsplit("/", 1)[0] or "/"), True) in alive
+    missing = [x for x in ref["items"] if x not in after]
+    gone_files = frozenset(p for p, d in missing if not d and parent_alive(p))
+    if P.endswith("/"):
+        wd = set(p for p, d in want if d)
+        top = frozenset(p for p in wd if not any(p.startswith(q + "/") for q in wd))
+        return ((gone_files, frozenset(p for p, d in missing if d and parent_alive(p))), (frozenset(), top))
+    return (gone_files, frozenset(p for p, d in want if not d and parent_alive(p)))
+
+
+def _walk_render(what, seq):
+    if what == "files":
+        return frozenset(r_str(p) for p in seq)
+    return frozenset(r_pair(r_str, r_bool, (p, bool(i.is_dir))) for p, i in seq)
+
+
+def _ob_walk(what, key):
+    def ob(env, P, cs, k):
+        fs = env.flavour(cs, k)
+        kw = {key: [P]}
+        return _walk_render(what, fs.walk.files(**kw) if what == "files" else fs.walk.info(**kw))
+    return ob
+
+
+def _ex_walk(what, key):
+    def ex(ref, P, cs):
+        return ref["walk"][(what, key, (P,), cs)]
+    return ex
+
+
+def _ob_glob_exclude_dirs(env, P, cs, k):
+    fs = env.flavour(cs, k)
+    return frozenset(r_pair(r_str, r_bool, (g.path.rstrip("/") or "/", bool(g.info.is_dir)))
+                     for g in fs.glob("**", exclude_dirs=[P]))
+
+
+FILTERDIR_KEYS = ("files", "dirs", "exclude_files", "exclude_dirs")
+
+
+def _ob_filterdir(env, P, cs, k):
+    fs = env.flavour(cs, k)
+    return tuple(frozenset(i.name for i in fs.filterdir(d, **{key: [P]}))
+                 for d in ("/", "/Docs") for key in FILTERDIR_KEYS)
+
+
+def filterdir_expect(listing, key, matches):
+    """documented meaning of FS.filterdir's pattern arguments; listing = [(name, is_dir)], matches(name) = reference"""
+    if key == "files":
+        return frozenset(n for n, d in listing if d or matches(n))
+    if key == "dirs":
+        return frozenset(n for n, d in listing if (not d) or matches(n))
+    if key == "exclude_files":
+        return frozenset(n for n, d in listing if d or not matches(n))
+    return frozenset(n for n, d in listing if (not d) or not matches(n))
+
+
+def _listing(items, d):
+    pre = d.rstrip("/") + "/"
+    return [(p[len(pre):], isd) for p, isd in items if p.startswith(pre) and "/" not in p[len(pre):]]
+
+
+def _ex_filterdir(ref, P, cs):
+    w = ref["w"][(P, cs)]
+    return tuple(filterdir_expect(_listing(ref["items"], d), key, lambda n: n in w)
+                 for d in ("/", "/Docs") for key in FILTERDIR_KEYS)
+
+
+def _walker_glob_ok(P):
+    # C13 owns the walker's glob filters and records two findings there (slash patterns never match a directory,
+    # '**' crosses components); here the walker glob entry points only take part with the other patterns
+    return not P.endswith("/") and "**" not in P
+
+
+class ChEntry(object):
+    def __init__(self, name, family, observe, expect=None, compare=None, applicable=None):
+        self.name, self.family, self.observe = name, family, observe
+        self.expect, self.compare, self.applicable = expect, compare, applicable or (lambda P: True)
+
+    def filesystem(self, cs, k):
+        """which flavour the call with rotation index k runs on (mirrors ChEnv.any_fs / ChEnv.flavour)"""
+        if self.name in ("fs.glob().__iter__", "fs.glob().count", "fs.glob().count_lines"):
+            return (CH_CS_KINDS + CH_CI_KINDS)[k % 8]
+        if self.name == "fs.glob().remove":
+            return "mem (fresh)"
+        if self.name.startswith(("FS.", "Walker.", "fs.glob(")):
+            return (CH_CS_KINDS if cs else CH_CI_KINDS)[k % 4]
+        return "-"
+
+    def judge(self, obs, ref, P, cs):
+        if self.compare is not None:
+            return self.compare(obs, ref, P, cs)
+        return obs, self.expect(ref, P, cs)
+
+
+def ch_entries():
+    E = ChEntry
+    return [
+        # ---- fs.glob._PATTERN_CACHE
+        E("glob.match|imatch", "glob",
+          _g_fun(lambda env, P, cs, k: (lambda x: (env.G.match if cs else env.G.imatch)(P, x))), _g_expect),
+        E("glob.match_any|imatch_any", "glob",
+          _g_fun(lambda env, P, cs, k: (lambda x: (env.G.match_any if cs else env.G.imatch_any)([P], x))), _g_expect),
+        E("glob.get_matcher", "glob", _g_fun(lambda env, P, cs, k: env.G.get_matcher([P], cs)), _g_expect),
+        E("FS.match_glob", "glob",
+          _g_fun(lambda env, P, cs, k: (lambda x, f=env.flavour(cs, k): f.match_glob([P], x))), _g_expect),
+        E("fs.glob().__iter__", "glob", _ob_glob_iter, _g_expect),
+        E("fs.glob().count", "glob", _ob_glob_count, _ex_glob_count),
+        E("fs.glob().count_lines", "glob", _ob_glob_lines, _ex_glob_lines),
+        E("fs.glob().remove", "glob", _ob_glob_remove, compare=_cmp_glob_remove),
+        E("Walker.filter_glob", "glob", _ob_walk("files", "filter_glob"), _ex_walk("files", "filter_glob"),
+          applicable=_walker_glob_ok),
+        E("Walker.exclude_glob", "glob", _ob_walk("info", "exclude_glob"), _ex_walk("info", "exclude_glob"),
+          applicable=_walker_glob_ok),
+        # ---- fs.wildcard._PATTERN_CACHE
+        E("wildcard.match|imatch", "wild",
+          _w_fun(lambda env, P, cs, k: (lambda n: (env.W.match if cs else env.W.imatch)(P, n))), _w_expect),
+        E("wildcard.match_any|imatch_any", "wild",
+          _w_fun(lambda env, P, cs, k: (lambda n: (env.W.match_any if cs else env.W.imatch_any)([P], n))), _w_expect),
+        E("wildcard.get_matcher", "wild", _w_fun(lambda env, P, cs, k: env.W.get_matcher([P], cs)), _w_expect),
+        E("FS.match", "wild",
+          _w_fun(lambda env, P, cs, k: (lambda n, f=env.flavour(cs, k): f.match([P], n))), _w_expect),
+        E("FS.filterdir", "wild", _ob_filterdir, _ex_filterdir),
+        E("Walker.filter", "wild", _ob_walk("files", "filter"), _ex_walk("files", "filter")),
+        E("Walker.exclude", "wild", _ob_walk("files", "exclude"), _ex_walk("files", "exclude")),
+        E("Walker.filter_dirs", "wild", _ob_walk("info", "filter_dirs"), _ex_walk("info", "filter_dirs")),
+        E("Walker.exclude_dirs", "wild", _ob_walk("info", "exclude_dirs"), _ex_walk("info", "exclude_dirs")),
+        E("fs.glob(exclude_dirs=)", "wild", _ob_glob_exclude_dirs, _ex_walk("info", "exclude_dirs")),
+    ]
+
+
+WALK_KEYS = ("filter", "exclude", "filter_dirs", "exclude_dirs", "filter_glob", "exclude_glob")
+
+
+def walk_model_line(what, ents, cs, opts):
+    """`walk` line of the extracted walker model (Run/RunMisc.v run_walk) with the case flag of the filesystem"""
+    from h_walk import render_tree
+    from h_fs import tree_tokens
+    t = [tok("/"), "0", "-", "1" if cs else "0"]
+    for key in WALK_KEYS:
+        p = opts.get(key)
+        t += ["-"] if p is None else [str(len(p))] + [tok(x) for x in p]
+    return "walk %s %s" % (what, " ".join(tree_tokens(render_tree(ents)) + t))
+
+
+def walk_model_set(out):
+    if not (out.startswith("[") and out.endswith("]")):
+        return out
+    return frozenset(x for x in out[1:-1].split(";") if x)
+
+
+def ch_reference(ents, pool):
+    """Everything the reference says about the tree: glob_spec / wild_spec per (pattern, mode), walker model per
+    (method, option, patterns, mode)."""
+    items = ch_items(ents)
+    env_names = sorted(set(p.rsplit("/", 1)[1] for p, _d in items) | set(CH_NAMES_EXTRA))
+    ref = dict(items=items, lines=ch_lines(ents), names=env_names, g={}, w={}, walk={})
+    plain = common.run_model(["glob plain %s" % tok(P) for P in pool])
+    if any(x != "T" for x in plain):
+        raise RuntimeError("cache-history pool holds a pattern outside the glob specification: %r" % (list(zip(pool, plain)),))
+    lines, keys = [], []
+    for P in pool:
+        for cs in (True, False):
+            for p, d in items:
+                keys.append(("g", P, cs, (p, d)))
+                lines.append("glob glob %s %s %s %s" % ("1" if cs else "0", tok(P), tok(p), "1" if d else "0"))
+            for n in env_names:
+                keys.append(("w", P, cs, n))
+                lines.append("glob wild %s %s %s" % ("1" if cs else "0", tok(P), tok(n)))
+            ref["g"][(P, cs)] = set()
+            ref["w"][(P, cs)] = set()
+    for (fam, P, cs, x), s in zip(keys, common.run_model_parallel(lines)):
+        if fam == "g":
+            if not s.startswith("S"):
+                raise RuntimeError("glob reference undefined for %r %r: %s" % (P, x, s))
+            if s == "ST":
+                ref["g"][(P, cs)].add(x)
+        elif s == "T":
+            ref["w"][(P, cs)].add(x)
+    for k in list(ref["g"]):
+        ref["g"][k] = frozenset(ref["g"][k])
+        ref["w"][k] = frozenset(ref["w"][k])
+    wl, wk = [], []
+    for P in pool:
+        for cs in (True, False):
+            for what, key in (("files", "filter"), ("files", "exclude"), ("info", "filter_dirs"), ("info", "exclude_dirs"),
+                              ("files", "filter_glob"), ("info", "exclude_glob")):
+                if key.endswith("_glob") and not _walker_glob_ok(P):
+                    continue
+                wk.append((what, key, (P,), cs))
+                wl.append(walk_model_line(what, ents, cs, {key: [P]}))
+    for k, out in zip(wk, common.run_model_parallel(wl, chunk=500)):
+        ref["walk"][k] = walk_model_set(out)
+    return ref
+
+
+# ---- histories: lists of steps ("clear",) | ("fill", n, tag, family) | ("call", entry name, cs, pattern, k)
+def ch_clear(env):
+    for mod in (env.G, env.W):
+        c = getattr(mod, "_PATTERN_CACHE", None)
+        if c is not None and hasattr(c, "clear"):
+            c.clear()
+
+
+def ch_capacity(env):
+    return max([getattr(getattr(m, "_PATTERN_CACHE", None), "cache_size", 1000) for m in (env.G, env.W)])
+
+
+def ch_fill(env, n, tag, family):
+    """n fresh pattern strings through the public functions, both modes: more than the caches hold"""
+    for i in range(n):
+        p = "q%s_%d*z" % (tag, i)
+        if family in ("glob", "both"):
+            env.G.match(p, "/x")
+            env.G.imatch(p, "/x")
+        if family in ("wild", "both"):
+            env.W.match(p, "x")
+            env.W.imatch(p, "x")
+
+
+def ch_run_history(env, entries, ref, hist, stop_at_first=False):
+    """Execute one history; returns (number of judged calls, [mismatch dict])."""
+    n, bad = 0, []
+    for t, st in enumerate(hist):
+        if st[0] == "clear":
+            ch_clear(env)
+            continue
+        if st[0] == "fill":
+            ch_fill(env, st[1], st[2], st[3])
+            continue
+        _c, name, cs, P, k = st
+        e = entries[name]
+        try:
+            got, want = e.judge(e.observe(env, P, cs, k), ref, P, cs)
+        except Exception as ex:  # noqa
+            got, want = "raised %s: %s" % (type(ex).__name__, ex), "no exception"
+        n += 1
+        if got != want:
+            bad.append(dict(step=t, entry=name, case_sensitive=cs, pattern=P, k=k, filesystem=e.filesystem(cs, k),
+                            implementation=got, reference=want))
+            if stop_at_first:
+                break
+    return n, bad
+
+
+def ch_minimise(env, entries, ref, hist, t):
+    """Shortest reproducing history: the calls on the same pattern string only, then single predecessors."""
+    last = hist[t]
+    same = [("clear",)] + [s for s in hist[:t] if s[0] == "fill" or (s[0] == "call" and s[3] == last[3])] + [last]
+    cands = [[("clear",), last]]
+    cands += [[("clear",), s, last] for s in same[1:-1] if s[0] == "call"]
+    cands += [same, [("clear",)] + list(hist[:t + 1])]
+    for c in cands:
+        _n, b = ch_run_history(env, entries, ref, c, stop_at_first=False)
+        b = [x for x in b if x["step"] == len(c) - 1]
+        if b:
+            return c, b[0]
+    return None, None
+
+
+_CH = {}
+
+
+def _ch_task(hists):
+    """worker: run a chunk of histories in this process (its module-wide caches are the object under test)"""
+    ref = _CH["ref"]
+    entries = dict((e.name, e) for e in ch_entries())
+    env = ChEnv(_CH["ents"])
+    n_calls, out = 0, []
+    try:
+        for hist in hists:
+            n, bad = ch_run_history(env, entries, ref, hist)
+            n_calls += n
+            fresh = 0
+            for b in bad:
+                if classify_history(dict(b, level="cache-history")) is not None:
+                    # a recorded / pending finding: the step itself is the example, the history goes on
+                    out.append(dict(b, history=[["clear"], list(hist[b["step"]])]))
+                    continue
+                fresh += 1
+                if fresh > 2:
+                    continue
+                mh, mb = ch_minimise(env, entries, ref, hist, b["step"])
+                if mh is None:  # needs the state this worker was in: keep the whole prefix, flagged
+                    mh, mb = list(hist[:b["step"] + 1]), dict(b, not_reproduced_from_a_cleared_cache=True)
+                out.append(dict(mb, history=[list(s) for s in mh]))
+    finally:
+        env.close()
+    return n_calls, len(hists), out
+
+
+def ch_discriminating(ref, entries, pool):
+    """per entry point: the patterns whose reference answer depends on the case mode (those expose a mode mix-up)"""
+    disc = {}
+    for e in entries:
+        ps = []
+        for P in pool:
+            if not e.applicable(P):
+                continue
+            if e.compare is not None:
+                ps.append(P) if _g_expect(ref, P, True) != _g_expect(ref, P, False) else None
+            elif e.expect(ref, P, True) != e.expect(ref, P, False):
+                ps.append(P)
+        disc[e.name] = ps
+    return disc
+
+
+def ch_histories(tier, seed, ref, capacity):
+    rnd = random.Random(seed * 7919 + 1414)
+    thorough = tier == "thorough"
+    entries = ch_entries()
+    disc = ch_discriminating(ref, entries, CH_POOL)
+    calls = [(e, cs) for e in entries for cs in (True, False)]
+    hists = []
+    stats = dict(pairs_cold=0, pairs_warm=0, pairs_evicted=0, pairs_full_cache=0)
+
+    def pats_for(a, b, salt):
+        ok = [P for P in CH_POOL if a.applicable(P) and b.applicable(P)]
+        if thorough:
+            return ok
+        d = [P for P in disc[b.name] if P in ok] or ok
+        o = [P for P in ok if P not in d] or ok
+        return [d[(salt + seed) % len(d)], d[(salt // 3 + 2 * seed + 1) % len(d)], o[(salt + seed) % len(o)]]
+
+    pairs = [(a, ma, b, mb) for a, ma in calls for b, mb in calls]
+    # (1) every ordered pair from a cold cache
+    for i, (a, ma, b, mb) in enumerate(pairs):
+        for j, P in enumerate(pats_for(a, b, i)):
+            hists.append([("clear",), ("call", a.name, ma, P, i + j), ("call", b.name, mb, P, i + 2 * j + 1)])
+            stats["pairs_cold"] += 1
+    # (2) every ordered pair inside long histories that never clear the caches (shuffled; all patterns interleaved)
+    order = list(range(len(pairs)))
+    rnd.shuffle(order)
+    nlong = 16
+    for c in range(nlong):
+        h = [("clear",)]
+        for i in order[c::nlong]:
+            a, ma, b, mb = pairs[i]
+            for j, P in enumerate(pats_for(a, b, i + 1)):
+                h += [("call", a.name, ma, P, i + j + 3), ("call", b.name, mb, P, i + j + 5)]
+                stats["pairs_warm"] += 1
+        hists.append(h)
+    # (3) around a fill of the caches beyond their capacity: A, fill, B (entry of A evicted) and fill, A, B (full cache)
+    nfill = capacity + 50
+    tag = 0
+    if thorough:
+        for i, (a, ma, b, mb) in enumerate(pairs):
+            if a.family != b.family:
+                continue
+            P = pats_for(a, b, i)[(i + seed) % 3]
+            tag += 1
+            hists.append([("clear",), ("call", a.name, ma, P, i), ("fill", nfill, "t%d" % tag, a.family),
+                          ("call", b.name, mb, P, i + 1)])
+            hists.append([("clear",), ("fill", nfill, "u%d" % tag, a.family), ("call", a.name, ma, P, i),
+                          ("call", b.name, mb, P, i + 1)])
+            stats["pairs_evicted"] += 1
+            stats["pairs_full_cache"] += 1
+    else:
+        for i, (a, ma) in enumerate(calls):
+            tag += 1
+            rot = calls[(i + seed) % len(calls):] + calls[:(i + seed) % len(calls)]
+            h1 = [("clear",)]
+            for P in CH_POOL:
+                if a.applicable(P):
+                    h1.append(("call", a.name, ma, P, i))
+            h1.append(("fill", nfill, "t%d" % tag, "both"))
+            h2 = [("clear",), ("fill", nfill, "u%d" % tag, "both")]
+            for j, (b, mb) in enumerate(rot):
+                P = pats_for(a, b, i + j)[0]
+                h1.append(("call", b.name, mb, P, i + j))
+                h2 += [("call", a.name, ma, P, i + j), ("call", b.name, mb, P, i + j + 1)]
+                stats["pairs_evicted"] += 1
+                stats["pairs_full_cache"] += 1
+            hists += [h1, h2]
+    return hists, stats, disc
+
+
+def history_text(hist):
+    out = []
+    for s in hist:
+        if s[0] == "clear":
+            out.append("both pattern caches empty")
+        elif s[0] == "fill":
+            out.append("%d fresh patterns through match/imatch (%s)" % (s[1], s[3]))
+        else:
+            out.append("%s(%r) %s" % (s[1], s[3], "case-sensitive" if s[2] else "case-insensitive"))
+    return "; then ".join(out)
+
+
+def cache_history_prepare(tier, seed):
+    """(v) before the fork: reference tables, histories, task list"""
+    ref = ch_reference(CH_TREE, CH_POOL)
+    env = ChEnv(CH_TREE)
+    capacity = ch_capacity(env)
+    env.close()
+    hists, stats, disc = ch_histories(tier, seed, ref, capacity)
+    _CH.update(ref=ref, ents=CH_TREE)
+    # long histories first (they dominate the wall time), the rest in chunks
+    def heavy_p(h):
+        return len(h) > 40 or any(s[0] == "fill" for s in h)
+    heavy = sorted([h for h in hists if heavy_p(h)], key=lambda h: -sum(1100 if s[0] == "fill" else 1 for s in h))
+    light = [h for h in hists if not heavy_p(h)]
+    tasks = [[h] for h in heavy] + [light[i:i + 150] for i in range(0, len(light), 150)]
+    return tasks, stats, disc, capacity
+
+
+def cache_history_collect(results, stats, disc, capacity, wall):
+    """(v): returns (coverage dict, [violation payload])"""
+    n_calls = n_h = 0
+    bad = []
+    for k, nh, b in results:
+        n_calls += k
+        n_h += nh
+        bad.extend(b)
+    payloads = []
+    for b in sorted(bad, key=lambda x: (len(x["history"]), x["entry"], x["pattern"])):
+        payloads.append(dict(level="cache-history", pattern=b["pattern"], path="", is_dir=False,
+                             case_sensitive=b["case_sensitive"], entry=b["entry"], k=b["k"], filesystem=b["filesystem"],
+                             implementation=_plain(b["implementation"]), reference=_plain(b["reference"]),
+                             history=b["history"], what=history_text(b["history"]),
+                             not_reproduced_from_a_cleared_cache=b.get("not_reproduced_from_a_cleared_cache", False)))
+    cov = dict(cache_history_entry_points=[e.name for e in ch_entries()],
+               cache_history_modes=2, cache_history_patterns=len(CH_POOL),
+               cache_history_histories=n_h, cache_history_calls_judged=n_calls,
+               cache_history_ordered_pairs_cold=stats["pairs_cold"], cache_history_ordered_pairs_warm=stats["pairs_warm"],
+               cache_history_pairs_across_eviction=stats["pairs_evicted"],
+               cache_history_pairs_on_full_cache=stats["pairs_full_cache"],
+               cache_history_cache_capacity=capacity, cache_history_disagreements=len(bad),
+               cache_history_mode_dependent_patterns=dict((k, len(v)) for k, v in disc.items()),
+               cache_history_filesystems=CH_CS_KINDS + CH_CI_KINDS,
+               cache_history_rule="every ordered pair (entry point A, mode m1) -> (entry point B, mode m2) on the same "
+                                  "pattern string: from empty caches, inside 16 long never-cleared histories, with a fill "
+                                  "beyond capacity between A and B and before A; every call of every history compared "
+                                  "with glob_spec / wild_spec / the walker model for its own mode",
+               cache_history_wall_s=round(wall, 2))
+    return cov, payloads
+
+
+def _unrender(x):
+    """model rendering -> readable: 's47,97' -> '/a', '(s47,97|T)' -> ['/a', True]"""
+    try:
+        if x.startswith("(s") and x.endswith(")") and "|" in x:
+            a, b = x[1:-1].split("|")
+            return [common.untok(a[1:] or "-"), b == "T"]
+        if x.startswith("s") and (len(x) == 1 or x[1].isdigit()):
+            return common.untok(x[1:] or "-")
+    except Exception:
+        pass
+    return x
+
+
+def _plain(x):
+    if isinstance(x, (set, frozenset)):
+        return sorted((_plain(y) for y in x), key=repr)
+    if isinstance(x, tuple):
+        return [_plain(y) for y in x]
+    if isinstance(x, str) and x[:1] in ("s", "("):
+        return _unrender(x)
+    return x
+
+
+# ---- (vi) list-level entry points: lists of 0..2 patterns, names in mixed case, both modes, all flavours
+LTOK = ["a", "A", "b", ".", "*", "?", "[aB]", "[!a]"]
+LNAMES = ["", "a", "A", "b", "B", "ab", "AB", "aB", "Ab", "a.b", "A.B", "ba", "BA", "c", "A.b"]
+LE_NAME_PATS = ["*.txt", "*.TXT", "a*", "A?", "[ab]*", "readme.*", "docs", "D*", "sub", "*"]
+LE_GLOB_PATS = ["*.txt", "*/*.TXT", "docs/*", "Docs/*/*.txt", "*/sub/*", "AB"]
+
+
+def le_patterns(tier):
+    n = 3 if tier == "thorough" else 2
+    pats = [""]
+    for k in range(1, n + 1):
+        pats += ["".join(c) for c in itertools.product(LTOK, repeat=k)]
+    return pats
+
+
+def le_lists(pats, tier, rnd):
+    lists = [()] + [(p,) for p in pats]
+    short = [p for p in pats if len(p) <= 6 and p.count("[") <= 2][:73] if tier == "thorough" else pats
+    lists += [(p, q) for p in short for q in short]
+    if tier == "thorough":
+        lists += [tuple(rnd.sample(pats, 2)) for _ in range(6000)] + [tuple(rnd.sample(pats, 3)) for _ in range(2000)]
+    return lists
+
+
+_LE = {}
+
+
+def _le_task(args):
+    """worker: one chunk of pattern lists through every list-level entry point, both modes, vs wild_any / glob any"""
+    lo, hi = args
+    import fs.wildcard as W
+    import fs.glob as G
+    wref, gref, lists, names = _LE["w"], _LE["g"], _LE["lists"], _LE["names"]
+    env = ChEnv(CH_TREE)
+    n, bad = 0, []
+    try:
+        for idx in range(lo, hi):
+            pl = lists[idx]
+            lst = list(pl)
+            for cs in (True, False):
+                fss = [env.flavour(cs, idx), env.flavour(cs, idx + 1)]
+                wm = W.get_matcher(lst, cs)
+                w_any = W.match_any if cs else W.imatch_any
+                gok = all(p != "" for p in pl)
+                if gok:
+                    gm = G.get_matcher(lst, cs)
+                    g_any = G.match_any if cs else G.imatch_any
+                for name in names:
+                    want = (not pl) or any(wref[(cs, p, name)] for p in pl)     # Glob/ShellSpec.v wild_any
+                    got = [("wildcard.match_any|imatch_any", w_any(lst, name)), ("wildcard.get_matcher", wm(name)),
+                           ("FS.match", fss[0].match(lst, name)), ("FS.match", fss[1].match(lst, name))]
+                    n += 4
+                    for fn, g in got:
+                        if bool(g) != want:
+                            bad.append(dict(entry=fn, case_sensitive=cs, patterns=lst, name=name,
+                                            implementation=g, reference=want))
+                    if gok and name:
+                        path = "/" + name
+                        want = (not pl) or any(gref[(cs, p, name)] for p in pl)
+                        got = [("glob.match_any|imatch_any", g_any(lst, path)), ("glob.get_matcher", gm(path)),
+                               ("FS.match_glob", fss[0].match_glob(lst, path))]
+                        n += 3
+                        for fn, g in got:
+                            if bool(g) != want:
+                                bad.append(dict(entry=fn, case_sensitive=cs, patterns=lst, name=path,
+                                                implementation=g, reference=want))
+            if len(bad) > 200:
+                break
+    finally:
+        env.close()
+    return n, bad
+
+
+def list_entry_prepare(tier, seed):
+    """(vi) before the fork: reference answers per (mode, pattern, name), the pattern lists, task list"""
+    rnd = random.Random(seed * 31 + 1415)
+    pats = le_patterns(tier)
+    lists = le_lists(pats, tier, rnd)
+    lines, keys = [], []
+    gpl = [p for p in pats if p]
+    plain = dict(zip(gpl, common.run_model_parallel(["glob plain %s" % tok(p) for p in gpl])))
+    for p in pats:
+        for cs in (True, False):
+            for name in LNAMES:
+                keys.append(("w", cs, p, name))
+                lines.append("glob wild %s %s %s" % ("1" if cs else "0", tok(p), tok(name)))
+                if p and name:
+                    keys.append(("g", cs, p, name))
+                    lines.append("glob glob %s %s %s 0" % ("1" if cs else "0", tok(p), tok("/" + name)))
+    wref, gref = {}, {}
+    for (fam, cs, p, name), s in zip(keys, common.run_model_parallel(lines, chunk=20000)):
+        if fam == "w":
+            wref[(cs, p, name)] = (s == "T")
+        else:
+            gref[(cs, p, name)] = (s == "ST")
+    # glob lists only over patterns inside the glob specification (no '**' here, classes closed)
+    lists_ok = [pl for pl in lists if all((not p) or plain.get(p) == "T" for p in pl)]
+    _LE.update(w=wref, g=gref, lists=lists_ok, names=LNAMES)
+    step = 120
+    return [(i, min(i + step, len(lists_ok))) for i in range(0, len(lists_ok), step)]
+
+
+def list_entry_collect(results, tier, seed, wall0):
+    """(vi): returns (coverage dict, [violation payload])"""
+    import time
+    lists_ok = _LE["lists"]
+    n = 0
+    bad = []
+    for k, b in results:
+        n += k
+        bad.extend(b)
+    payloads = [dict(level="list-entry", pattern=" | ".join(b["patterns"]), path=b["name"], is_dir=False, **b)
+                for b in sorted(bad, key=lambda x: (len(x["patterns"]), x["entry"], x["patterns"], x["name"]))]
+    t0 = time.time()
+    # trees: Walker / filterdir / glob(exclude_dirs=) with pattern lists on every flavour, case-insensitive ones included
+    ents = CH_TREE
+    items = ch_items(ents)
+    name_lists = [[]] + [[p] for p in LE_NAME_PATS] + [[p, q] for p in LE_NAME_PATS for q in LE_NAME_PATS if p != q]
+    glob_lists = [[p] for p in LE_GLOB_PATS] + [[p, q] for p in LE_GLOB_PATS for q in LE_GLOB_PATS if p != q]
+    cases = []
+    for key in WALK_KEYS:
+        for pl in (glob_lists if key.endswith("_glob") else name_lists):
+            what = "files" if key in ("filter", "exclude", "filter_glob") else "info"
+            cases.append((what, key, pl))
+    wl = [walk_model_line(what, ents, cs, {key: pl}) for what, key, pl in cases for cs in (True, False)]
+    wout = common.run_model_parallel(wl, chunk=500)
+    wmodel = {}
+    i = 0
+    for what, key, pl in cases:
+        for cs in (True, False):
+            wmodel[(what, key, tuple(pl), cs)] = walk_model_set(wout[i])
+            i += 1
+    names = sorted(set(p.rsplit("/", 1)[1] for p, _d in items))
+    nl = [p for p in LE_NAME_PATS]
+    wl2 = common.run_model(["glob wild %s %s %s" % ("1" if cs else "0", tok(p), tok(nm))
+                            for p in nl for cs in (True, False) for nm in names])
+    w2 = dict(zip([(p, cs, nm) for p in nl for cs in (True, False) for nm in names], [s == "T" for s in wl2]))
+    env = ChEnv(ents)
+    tree_bad = []
+    n_tree = 0
+    try:
+        kinds = [(k, True) for k in CH_CS_KINDS] + [(k, False) for k in CH_CI_KINDS]
+        for ci, (what, key, pl) in enumerate(cases):
+            for kind, cs in kinds:
+                if tier != "thorough" and cs and kind != CH_CS_KINDS[(ci + seed) % len(CH_CS_KINDS)]:
+                    continue
+                f = env.get(kind)
+                want = wmodel[(what, key, tuple(pl), cs)]
+                for via in ("walk", "glob") if key == "exclude_dirs" else ("walk",):
+                    try:
+                        if via == "glob":
+                            got = frozenset(r_pair(r_str, r_bool, (g.path.rstrip("/") or "/", bool(g.info.is_dir)))
+                                            for g in f.glob("**", exclude_dirs=list(pl)))
+                        else:
+                            kw = {key: list(pl)}
+                            got = _walk_render(what, f.walk.files(**kw) if what == "files" else f.walk.info(**kw))
+                    except Exception as ex:  # noqa
+                        got = "raised %s: %s" % (type(ex).__name__, ex)
+                    n_tree += 1
+                    if got != want:
+                        tree_bad.append(dict(entry=("Walker.%s" % key) if via == "walk" else "fs.glob(exclude_dirs=)",
+                                             filesystem=kind, case_sensitive=cs, patterns=list(pl),
+                                             implementation=_plain(got), reference=_plain(want)))
+        for pl in name_lists[1:]:
+            for kind, cs in kinds:
+                f = env.get(kind)
+                for d in ("/", "/Docs"):
+                    for key in FILTERDIR_KEYS:
+                        want = filterdir_expect(_listing(items, d), key, lambda nm: any(w2[(p, cs, nm)] for p in pl))
+                        try:
+                            got = frozenset(i.name for i in f.filterdir(d, **{key: list(pl)}))
+                        except Exception as ex:  # noqa
+                            got = "raised %s: %s" % (type(ex).__name__, ex)
+                        n_tree += 1
+                        if got != want:
+                            tree_bad.append(dict(entry="FS.filterdir(%s=)" % key, filesystem=kind, case_sensitive=cs,
+                                                 patterns=list(pl), dir=d, implementation=_plain(got),
+                                                 reference=_plain(want)))
+    finally:
+        env.close()
+    for b in tree_bad:
+        payloads.append(dict(level="list-tree", pattern=" | ".join(b["patterns"]), path=b.get("dir", "/"), is_dir=True, **b))
+    cov = dict(list_entry_pattern_lists=len(lists_ok), list_entry_names=len(LNAMES), list_entry_evaluations=n,
+               list_entry_disagreements=len(bad), list_tree_cases=n_tree, list_tree_disagreements=len(tree_bad),
+               list_tree_filesystems=CH_CS_KINDS + CH_CI_KINDS,
+               list_entry_rule="every list of 0..2 patterns of <= 2 (quick) / 3 tokens over {a,A,b,.,*,?,[aB],[!a]} x 15 mixed-case "
+                               "names x both modes through wildcard.match_any/imatch_any, wildcard.get_matcher, FS.match and "
+                               "(non-empty patterns) glob.match_any/imatch_any, glob.get_matcher, FS.match_glob on filesystems "
+                               "declaring either case mode, vs wild_any / any glob_spec; Walker filter/exclude/filter_dirs/"
+                               "exclude_dirs/filter_glob/exclude_glob, fs.glob(exclude_dirs=) and FS.filterdir with lists of "
+                               "0..2 patterns on MemoryFS/SubFS/read_only/OSFS and case_insensitive MemoryFS/SubFS/read_only/"
+                               "TarFS vs the walker model with the filesystem's case flag (sets, order not judged)",
+               list_entry_wall_s=round(wall0 + time.time() - t0, 2))
+    return cov, payloads
+
+
+SIG_TAR_COUNT_LINES = ("Globber.count_lines raises ValueError('readline of closed file') on a TarFS "
+                       "(iterates fs.open(path) without keeping the file object)")
+
+
+def classify_history(b):
+    """Narrow classes for disagreements of (v)/(vi) that are pre-existing behaviour; None = violation."""
+    if b.get("entry") == "fs.glob().count_lines" and b.get("filesystem") == "tar" and \
+            str(b.get("implementation")).startswith("raised ValueError: readline of closed file"):
+        return SIG_TAR_COUNT_LINES
+    return None
+
+
+def run_history_checks(report):
+    import multiprocessing
+    import time
+    import fs.wildcard  # noqa (before the fork)
+    import fs.glob  # noqa
+    import fs.memoryfs  # noqa
+    import fs.tarfs  # noqa
+    import fs.osfs  # noqa
+    import fs.wrap  # noqa
+    import h_walk  # noqa
+    t0 = time.time()
+    tasks, stats, disc, capacity = cache_history_prepare(report.tier, report.seed)
+    le_tasks = list_entry_prepare(report.tier, report.seed)
+    t1 = time.time()
+    ctx = multiprocessing.get_context("fork")
+    pool = ctx.Pool(CH_PROCS)       # forked after the reference tables are in place
+    try:
+        res = list(pool.imap_unordered(_ch_task, tasks))
+        t2 = time.time()
+        le_res = list(pool.imap_unordered(_le_task, le_tasks))
+        t3 = time.time()
+    finally:
+        pool.close()
+        pool.join()
+    cov, bad = cache_history_collect(res, stats, disc, capacity, t2 - t0)
+    cov2, bad2 = list_entry_collect(le_res, report.tier, report.seed, t3 - t2)
+    cov.update(cov2)
+    return cov, bad + bad2
 
 
 def run(report, forced=None):
@@ -200,6 +1134,29 @@ def run(report, forced=None):
                                 path=(sorted(set(want) ^ set(got)) or [""])[0], is_dir=False,
                                 implementation=got, reference=want, tree=everything))
         m.close()
+    # (v) cache histories, (vi) list-level entry points and case-insensitive filesystems
+    hcov, hbad = run_history_checks(report) if forced is None else ({}, [])
+    total += hcov.get("cache_history_calls_judged", 0) + hcov.get("list_entry_evaluations", 0) + hcov.get("list_tree_cases", 0)
+    hseen = {}
+    pending_seen = set()
+    for b in hbad:
+        kc = classify_history(b)
+        if kc:
+            known = report.known_match(kc)
+            if known:
+                report.known_finding(known, example=b)
+                continue
+            if kc in PENDING_FINDINGS:
+                pending_seen.add(kc)
+                continue
+        sig = (b["level"], b.get("entry"), b.get("case_sensitive"))
+        if sig in hseen or len([s for s in hseen if s[0] == b["level"]]) >= 6:
+            continue
+        hseen[sig] = True
+        report.violation(dict(kind="case-mode-or-list-entry-point-differs-from-reference",
+                              theorem="Props/C14.v C14_cache_transparent (every cached value is the one computed for its "
+                                      "key, in every history) + reference Glob/ShellSpec.v glob_spec / wild_spec / wild_any, "
+                                      "Walk/WalkOpts.v", **b))
     # classification
     seen = set()
     for b in bad:
@@ -217,11 +1174,14 @@ def run(report, forced=None):
                rule="wildcard: every pattern of <= 3 (quick) / 4 tokens over {a,B,.,*,?,[ab],[!a],[a-c],-,],[} x 15 names "
                     "x both case modes; glob: every pattern of <= 3 components over {a,b,*,?,**,[ab],[!a],a*,*.b} "
                     "(with/without trailing slash) x paths of <= 3 components x file/dir; Globber on random trees "
-                    "vs the filter of a complete walk; non-trivial = distinct matching (pattern, path)",
+                    "vs the filter of a complete walk; non-trivial = distinct matching (pattern, path); cache histories and "
+                    "list-level entry points: see cache_history_rule, list_entry_rule",
                samples=[dict(pattern="a*", path="/ab", is_dir=False), dict(pattern="**/b/", path="/a/b", is_dir=True)],
                disagreements_checked=len(bad), globber_cases=globber_checked,
-               traces_validated_against_impl=total - len(bad), exhaustive=True,
+               traces_validated_against_impl=total - len(bad) - len(hbad), exhaustive=True,
                exhaustive_scope="pattern/path spaces stated in rule; Globber trees sampled")
+    cov.update(hcov)
+    cov["pending_findings_seen"] = sorted(pending_seen)
     if forced is None:
         # the regex translation itself: model text == code text, regex semantics vs CPython re, matchers
         import h_globre
@@ -231,7 +1191,87 @@ def run(report, forced=None):
         "and fs/glob.py is modelled (Glob/Translate.v: text compared character by character on every run) and proved "
         "against them; the atom semantics of Glob/Regex.v, parse_items and re_compiles stand for CPython's re engine: "
         "trusted, validated against re on every run; IGNORECASE and .lower() ASCII only",
-        "case-insensitive comparison restricted to ASCII"])
+        "case-insensitive comparison restricted to ASCII",
+        "cache histories: 'empty caches' is obtained with _PATTERN_CACHE.clear() of fs.glob / fs.wildcard when those objects "
+        "exist, fills go through the public match/imatch only; list-level reference = wild_any of Glob/ShellSpec.v (true on the "
+        "empty list, else any wild_spec), computed by the harness from the model's wild_spec answers for the function-level "
+        "checks and by the extracted walker model (Walk/WalkOpts.v name_match = wild_any) for Walker / fs.glob(exclude_dirs=)"])
+
+
+def replay_history(d):
+    """re-run a recorded history of (v) in this process and compare every call with the reference"""
+    pats = sorted(set(s[3] for s in d["history"] if s[0] == "call"))
+    ref = ch_reference(CH_TREE, pats)
+    entries = dict((e.name, e) for e in ch_entries())
+    env = ChEnv(CH_TREE)
+    try:
+        hist = [tuple(s) for s in d["history"]]
+        _n, bad = ch_run_history(env, entries, ref, hist)
+    finally:
+        env.close()
+    print(history_text(hist))
+    for b in bad:
+        print("step %d: %s(%r, case_sensitive=%r) on %s\n  implementation: %r\n  reference:      %r" % (
+            b["step"], b["entry"], b["pattern"], b["case_sensitive"], b["filesystem"],
+            _plain(b["implementation"]), _plain(b["reference"])))
+    if not bad:
+        print("every call agrees with the reference")
+    return 1 if bad else 0
+
+
+def replay_list(d):
+    """re-run a recorded case of (vi)"""
+    import fs.wildcard as W
+    import fs.glob as G
+    cs, pl = d["case_sensitive"], list(d["patterns"])
+    env = ChEnv(CH_TREE)
+    try:
+        if d["level"] == "list-entry":
+            name = d["name"]
+            isglob = d["entry"].startswith(("glob.", "FS.match_glob"))
+            if isglob:
+                out = common.run_model(["glob glob %s %s %s 0" % ("1" if cs else "0", tok(p), tok(name)) for p in pl])
+                want = (not pl) or any(s == "ST" for s in out)
+            else:
+                out = common.run_model(["glob wild %s %s %s" % ("1" if cs else "0", tok(p), tok(name)) for p in pl])
+                want = (not pl) or any(s == "T" for s in out)
+            got = {}
+            mod = G if isglob else W
+            got["%s.%s" % (mod.__name__, "match_any" if cs else "imatch_any")] = (mod.match_any if cs else mod.imatch_any)(pl, name)
+            got["%s.get_matcher" % mod.__name__] = mod.get_matcher(pl, cs)(name)
+            for kind in (CH_CS_KINDS if cs else CH_CI_KINDS):
+                f = env.get(kind)
+                got["%s.%s" % (kind, "match_glob" if isglob else "match")] = (f.match_glob if isglob else f.match)(pl, name)
+            print("patterns %r, name %r, case_sensitive=%r: reference %r" % (pl, name, cs, want))
+            for k in sorted(got):
+                print("  %-28s %r" % (k, got[k]))
+            return 0 if all(bool(v) == want for v in got.values()) else 1
+        key = d["entry"].split(".", 1)[1] if d["entry"].startswith("Walker.") else None
+        f = env.get(d["filesystem"])
+        if d["entry"].startswith("FS.filterdir"):
+            fkey = d["entry"][len("FS.filterdir("):-2]
+            items = ch_items(CH_TREE)
+            names = [n for n, _d in _listing(items, d["dir"])]
+            out = common.run_model(["glob wild %s %s %s" % ("1" if cs else "0", tok(p), tok(n)) for p in pl for n in names])
+            hit = set(n for (p, n), s in zip([(p, n) for p in pl for n in names], out) if s == "T")
+            want = filterdir_expect(_listing(items, d["dir"]), fkey, lambda n: n in hit)
+            got = frozenset(i.name for i in f.filterdir(d["dir"], **{fkey: pl}))
+        else:
+            viaglob = key is None
+            key = key or "exclude_dirs"
+            what = "files" if key in ("filter", "exclude", "filter_glob") else "info"
+            want = walk_model_set(common.run_model([walk_model_line(what, CH_TREE, cs, {key: pl})])[0])
+            if viaglob:
+                got = frozenset(r_pair(r_str, r_bool, (g.path.rstrip("/") or "/", bool(g.info.is_dir)))
+                                for g in f.glob("**", exclude_dirs=pl))
+            else:
+                kw = {key: pl}
+                got = _walk_render(what, f.walk.files(**kw) if what == "files" else f.walk.info(**kw))
+        print("%s patterns=%r on %s (case_sensitive=%r)\n  implementation: %r\n  reference:      %r" % (
+            d["entry"], pl, d["filesystem"], cs, _plain(got), _plain(want)))
+        return 0 if got == want else 1
+    finally:
+        env.close()
 
 
 def replay(report, path):
@@ -241,6 +1281,10 @@ def replay(report, path):
     if "part" in d:
         import h_globre
         return h_globre.replay_translate(d)
+    if d.get("level") == "cache-history":
+        return replay_history(d)
+    if d.get("level") in ("list-entry", "list-tree"):
+        return replay_list(d)
     p, path_, is_dir = d["pattern"], d["path"], d.get("is_dir", False)
     impl = G.match(p, path_ + ("/" if is_dir else ""))
     spec = common.run_model(["glob glob 1 %s %s %s" % (tok(p), tok(path_), "1" if is_dir else "0")])[0]
